@@ -101,11 +101,11 @@ macro_rules! return_if_some {
     };
 }
 
-pub const N_SINGLE: usize = 14;
+pub const N_SINGLE: usize = 16;
 /// single-trait families the plugin module can also make (C05)
 pub const N_PLUGIN_SINGLE: usize = 7;
 /// containers available per single-trait family
-pub const SINGLE_NCONT: [usize; N_SINGLE] = [2, 4, 2, 2, 1, 2, 1, 1, 1, 1, 4, 2, 2, 1];
+pub const SINGLE_NCONT: [usize; N_SINGLE] = [2, 4, 2, 2, 1, 2, 1, 1, 1, 1, 4, 2, 2, 1, 1, 1];
 
 fn wrapc(o: Option<Box<dyn DynObj>>, cx: &Cx, cont: usize) -> Option<Created> {
     o.map(|obj| Created { obj, ctxsel: cx.ctxsel, borrowed: cont == 1 || cont == 2 })
@@ -116,7 +116,8 @@ pub fn create_single(family: usize, cont: usize, cx: &Cx) -> Option<Created> {
     if cx.side == TWIN {
         let core = Core::new(cx.world, TWIN, cx.seed, false);
         let imp = Solo::new(core);
-        let borrowed = cont == 1 || cont == 2;
+        // (families 14/15: forwarding objects over a reference, see below)
+        let borrowed = cont == 1 || cont == 2 || family >= 14;
         macro_rules! tw {
             ($k:ident) => {
                 if borrowed { Box::new(W::<Solo, $k>::borrowed(imp, cx.twin_arena)) as Box<dyn DynObj> } else { Box::new(W::<Solo, $k>::new(imp)) as Box<dyn DynObj> }
@@ -137,6 +138,8 @@ pub fn create_single(family: usize, cont: usize, cx: &Cx) -> Option<Created> {
             11 => tw!(KAttrs),
             12 => tw!(KLife),
             13 => tw!(KDup),
+            14 => tw!(KKVStore),
+            15 => tw!(KIOPort),
             _ => return None,
         };
         return Some(Created { obj, ctxsel: cx.ctxsel, borrowed });
@@ -169,6 +172,22 @@ pub fn create_single(family: usize, cont: usize, cx: &Cx) -> Option<Created> {
         11 => er!(Attrs, KAttrs, [0, 1]),
         12 => er!(Life, KLife, [0, 1]),
         13 => er!(Dup, KDup, [0]),
+        // `Fwd` objects: the instance is a boxed forwarder over a reference (`#[cglue_forward]`
+        // generates `impl Trait for Fwd<&mut T>` / `Fwd<&T>`); the referent lives in the arena
+        14 => {
+            let r: &'static mut Solo = leak_mut(imp, cx);
+            let inst = cglue::boxed::CBox::from(cglue::forward::ForwardMut::forward_mut(r));
+            let mut out: Option<Box<dyn DynObj>> = None;
+            mk_any!(@ctx trait_obj, KVStore, W, KKVStore, inst, cx, out);
+            out.map(|obj| Created { obj, ctxsel: cx.ctxsel, borrowed: true })
+        }
+        15 => {
+            let r: &'static Solo = &*leak_mut(imp, cx);
+            let inst = cglue::boxed::CBox::from(cglue::forward::Forward::forward(r));
+            let mut out: Option<Box<dyn DynObj>> = None;
+            mk_any!(@ctx trait_obj, IOPort, W, KIOPort, inst, cx, out);
+            out.map(|obj| Created { obj, ctxsel: cx.ctxsel, borrowed: true })
+        }
         _ => None,
     }
 }
